@@ -1,0 +1,71 @@
+//go:build verif
+
+package chain
+
+import (
+	"time"
+
+	"github.com/btcsuite/btcd/btcutil"
+	"github.com/btcsuite/btcd/chaincfg"
+	"github.com/btcsuite/btcd/chaincfg/chainhash"
+	"github.com/btcsuite/btcd/wire"
+	"github.com/btcsuite/btcwallet/wtxmgr"
+	"github.com/lightninglabs/neutrino"
+)
+
+// This file is only compiled with the "verif" build tag. It lets an external
+// monitor play the role of the block source of the chain clients (the ZMQ /
+// polling connection of bitcoind, the rescanner of neutrino), so that the
+// notifications the clients derive from blocks can be observed at their
+// public Notifications() channel.
+
+// VerifFilterBlock runs the client's block filter on the given block, exactly
+// as its block event handler does for a new best-chain block.
+func (c *BitcoindClient) VerifFilterBlock(block *wire.MsgBlock, height int32,
+	notify bool) []*wtxmgr.TxRecord {
+
+	return c.filterBlock(block, height, notify)
+}
+
+// verifRescanner is a rescanner that never produces anything on its own.
+type verifRescanner struct{}
+
+func (verifRescanner) Start() <-chan error                   { return make(chan error) }
+func (verifRescanner) WaitForShutdown()                      {}
+func (verifRescanner) Update(...neutrino.UpdateOption) error { return nil }
+
+// VerifNewNeutrinoClient creates a neutrino client on top of the given chain
+// service whose rescans produce nothing by themselves: the monitor delivers
+// the rescan callbacks through the Verif* methods below.
+func VerifNewNeutrinoClient(chainParams *chaincfg.Params,
+	cs NeutrinoChainService) *NeutrinoClient {
+
+	return &NeutrinoClient{
+		CS:          cs,
+		chainParams: chainParams,
+		newRescan: func(...neutrino.RescanOption) rescanner {
+			return verifRescanner{}
+		},
+	}
+}
+
+// VerifOnFilteredBlockConnected delivers the rescan callback of that name.
+func (s *NeutrinoClient) VerifOnFilteredBlockConnected(height int32,
+	header *wire.BlockHeader, relevantTxs []*btcutil.Tx) {
+
+	s.onFilteredBlockConnected(height, header, relevantTxs)
+}
+
+// VerifOnBlockConnected delivers the rescan callback of that name.
+func (s *NeutrinoClient) VerifOnBlockConnected(hash *chainhash.Hash,
+	height int32, t time.Time) {
+
+	s.onBlockConnected(hash, height, t)
+}
+
+// VerifOnBlockDisconnected delivers the rescan callback of that name.
+func (s *NeutrinoClient) VerifOnBlockDisconnected(hash *chainhash.Hash,
+	height int32, t time.Time) {
+
+	s.onBlockDisconnected(hash, height, t)
+}
